@@ -17,6 +17,7 @@ reads from the source (`Gen.iourCancelUsesPushRaw = true`). `Compio.Cex.C05` kee
 INSIDE `cancel` / `cancel_token` (`overflowDrain`).
 -/
 import Compio.Lemmas.KeyLifeCancel
+import Compio.Gen.WithCancel
 
 namespace Compio.Props.C05
 
@@ -292,6 +293,12 @@ theorem late_registration_cancels {c : Cfg} (t : Token) (ht : t.fired = true) (i
       · cases hs1
     · cases hs1
   · cases h
+
+/-- the token theorems above reach `Submit::poll` because `WithCancel::poll` / `poll_next` poll the wrapped future ONLY
+through an `ExtWaker` that carries the token — the shape of both bodies is checked against the source by the extractor
+(target `WithCancel`, fails closed), and the runtime-level cases of the harness (`rt/*`: real `Runtime`, ops submitted
+before and after the token fires) are predicted by running `Token.register` / `Token.cancel` through `step` -/
+theorem with_cancel_carries_token : Gen.withCancelAlwaysWrapsWaker = true := rfl
 
 /-! ### promptness on io_uring: only the kernel is assumed -/
 
